@@ -102,6 +102,14 @@ Section CliFault.
     (failed O = false /\ r = r0) \/ (failed O = true /\ r = Err) \/ r = Panic.
   Lemma K_reraise {A} (r0 : res A) : Spec (reraise r0) (Kp r0).
   Proof. intros s r s' E. injection E as <- <-. exists []. rewrite app_nil_r. split; [reflexivity|]. left. split; reflexivity. Qed.
+  (* ... and what may follow the re-raise when nothing failed: it runs only if r0 is Ok *)
+  Lemma K_reraise_then (r0 : res unit) (tail : M cli unit) : Spec tail Ep -> Spec (reraise r0 ;; tail) (Kp r0).
+  Proof.
+    intros St s r s' E. unfold bind, reraise in E. destruct r0 as [[]| |].
+    - destruct (St s r s' E) as (O & H & HE). exists O. split; [exact H|]. unfold Kp. destruct r as [[]| |]; cbn [Ep] in HE; auto.
+    - injection E as <- <-. exists []. rewrite app_nil_r. split; [reflexivity|]. left. split; reflexivity.
+    - injection E as <- <-. exists []. rewrite app_nil_r. split; [reflexivity|]. left. split; reflexivity.
+  Qed.
   Lemma bind_EK {A B} (m : M cli A) (f : A -> M cli B) (r0 : res B) : Spec m Ep -> (forall a, Spec (f a) (Kp r0)) -> Spec (bind m f) (Kp r0).
   Proof.
     intros. eapply Spec_bind; eauto; unfold Ep, Kp; intros.
@@ -131,7 +139,8 @@ Section CliFault.
     - apply bind_EE; [apply N_E, N_get|intros s0]. apply bind_EE; [apply N_E; nmod|intros]. apply bind_EE; [unfold new_writer; apply N_E; nmod|intros].
       apply (E_catch_K _ _ (fun r => r)); [eauto|reflexivity|reflexivity|apply E_run_hops|intros r0].
       apply bind_EK; [apply N_E, N_get|intros s1]. apply bind_EK; [destruct (newp s1); [apply N_E; nmod|apply N_E, N_ret]|intros].
-      apply bind_EK; [destruct (is_dirty (wst s1)); [apply E_wr|apply N_E, N_ret]|intros]. apply bind_EK; [apply E_fl|intros; apply K_reraise]. Qed.
+      apply bind_EK; [destruct (is_dirty (wst s1)); [apply E_wr|apply N_E, N_ret]|intros]. apply bind_EK; [apply E_fl|intros].
+      apply K_reraise_then. destruct (cs_fail cs _ name args); [apply E_process_error|apply N_E, N_ret]. Qed.
   Lemma E_process_help req : Spec (process_help okf cs req) Ep.
   Proof. unfold process_help. apply bind_EE; [unfold new_writer; apply N_E; nmod|intros]. apply bind_EE; [apply E_run_hops|intros].
     apply bind_EE; [apply N_E, N_get|intros s1]. apply bind_EE; [destruct (is_dirty (wst s1)); [apply E_wr|apply N_E, N_ret]|intros; apply E_fl]. Qed.
